@@ -134,3 +134,259 @@ pub fn fill_bytes(seed: u32, len: usize) -> Vec<u8> {
     }
     v
 }
+
+// ------------------------------------------------------------------------------------------------
+// AMF0 values
+
+use crate::refs::amf0::{S, V};
+
+#[derive(Clone, Copy, Debug)]
+pub struct AmfCfg {
+    /// decoder-direction features: ECMA arrays with arbitrary count fields, Boolean bytes 0..255
+    pub wire: bool,
+    /// allow strings / names longer than 65535 bytes (the encoder must refuse those)
+    pub too_long: bool,
+    /// allow the empty property name
+    pub empty_names: bool,
+    pub max_depth: u32,
+}
+
+impl AmfCfg {
+    pub const LIB: AmfCfg = AmfCfg { wire: false, too_long: false, empty_names: false, max_depth: 4 };
+    pub const LIB_ANY: AmfCfg = AmfCfg { wire: false, too_long: true, empty_names: false, max_depth: 4 };
+    pub const WIRE: AmfCfg = AmfCfg { wire: true, too_long: false, empty_names: false, max_depth: 4 };
+    pub const SMALL: AmfCfg = AmfCfg { wire: false, too_long: false, empty_names: false, max_depth: 2 };
+}
+
+pub const NUM_BITS: &[u64] = &[
+    0x0000_0000_0000_0000, // +0
+    0x8000_0000_0000_0000, // -0
+    0x7FF0_0000_0000_0000, // +inf
+    0xFFF0_0000_0000_0000, // -inf
+    0x7FF8_0000_0000_0000, // quiet NaN
+    0x7FF0_0000_0000_0001, // signalling NaN
+    0xFFF8_0000_DEAD_BEEF, // negative quiet NaN with payload
+    0x7FF4_0000_0000_0000, // signalling NaN, high payload bit
+    0x0000_0000_0000_0001, // smallest subnormal
+    0x000F_FFFF_FFFF_FFFF, // largest subnormal
+    0x0010_0000_0000_0000, // smallest normal
+    0x7FEF_FFFF_FFFF_FFFF, // largest finite
+    0x3FF0_0000_0000_0000, // 1.0
+    0xBFF0_0000_0000_0000, // -1.0
+    0x41EF_FFFF_FFE0_0000, // 4294967295.0
+    0x41F0_0000_0000_0000, // 4294967296.0
+    0x4200_0000_0000_0000, // 2^33
+    0xC000_0000_0000_0000, // -2.0
+];
+
+pub fn amf_number_bits() -> BoxedStrategy<u64> {
+    prop_oneof![
+        3 => pick(NUM_BITS),
+        4 => (-1000i32..1000).prop_map(|i| (i as f64).to_bits()),
+        2 => any::<f64>().prop_map(|f| f.to_bits()),
+        1 => any::<u64>(),
+    ]
+    .boxed()
+}
+
+pub const NAME_POOL: &[&str] = &[
+    "app", "code", "level", "description", "onMetaData", "@setDataFrame", "width", "height",
+    "framerate", "stereo", "encoder", "objectEncoding", "tcUrl", "flashVer", "type", "a", "b",
+    "connect", "_result", "_error", "onStatus", "live", "NetStream.Play.Start",
+    "NetStream.Publish.Start", "key", "stream", "é", "日本語", "😀",
+];
+
+pub fn amf_string(too_long: bool, allow_empty: bool) -> BoxedStrategy<S> {
+    let base = prop_oneof![
+        5 => "[a-zA-Z0-9_.@|/ -]{1,12}".prop_map(S::lit),
+        3 => pick(NAME_POOL).prop_map(S::lit),
+        2 => "\\PC{1,6}".prop_map(S::lit),
+        1 => pick(&[("a", 65535u32), ("a", 65534), ("é", 32767), ("€", 21845), ("😀", 16383), ("ab", 32767), ("a", 256), ("a", 255)])
+            .prop_map(|(u, r)| S::rep(u, r)),
+    ];
+    let with_empty = if allow_empty {
+        prop_oneof![12 => base, 1 => Just(S::lit(""))].boxed()
+    } else {
+        base.boxed()
+    };
+    if too_long {
+        prop_oneof![
+            14 => with_empty,
+            1 => pick(&[("a", 65536u32), ("a", 65537), ("a", 70000), ("é", 32768), ("a", 131071), ("a", 131072), ("ab", 65536)])
+                .prop_map(|(u, r)| S::rep(u, r)),
+        ]
+        .boxed()
+    } else {
+        with_empty
+    }
+}
+
+fn dedup_pairs(pairs: Vec<(S, V)>) -> Vec<(S, V)> {
+    let mut seen = std::collections::HashSet::new();
+    pairs
+        .into_iter()
+        .filter(|(k, _)| seen.insert(k.build()))
+        .collect()
+}
+
+pub fn amf_value(cfg: AmfCfg) -> BoxedStrategy<V> {
+    let bool_s = if cfg.wire {
+        prop_oneof![2 => Just(0u8), 2 => Just(1u8), 3 => any::<u8>()].boxed()
+    } else {
+        (0u8..2).boxed()
+    };
+    let leaf = prop_oneof![
+        4 => amf_number_bits().prop_map(V::Num),
+        2 => bool_s.prop_map(V::Bool),
+        4 => amf_string(cfg.too_long, true).prop_map(V::Str),
+        1 => Just(V::Null),
+        1 => Just(V::Undef),
+    ];
+    let wire = cfg.wire;
+    let too_long = cfg.too_long;
+    let empty_names = cfg.empty_names;
+    leaf.prop_recursive(cfg.max_depth, 24, 4, move |inner| {
+        let pairs = proptest::collection::vec((amf_string(too_long, empty_names), inner.clone()), 0..4)
+            .prop_map(dedup_pairs);
+        if wire {
+            prop_oneof![
+                3 => pairs.clone().prop_map(V::Obj),
+                2 => proptest::collection::vec(inner.clone(), 0..4).prop_map(V::Arr),
+                3 => (pairs, prop_oneof![Just(None), Just(Some(0u32)), Just(Some(u32::MAX)), any::<u32>().prop_map(Some)])
+                    .prop_map(|(p, c)| { let n = p.len() as u32; V::Ecma(c.unwrap_or(n), p) }),
+            ]
+            .boxed()
+        } else {
+            prop_oneof![
+                3 => pairs.prop_map(V::Obj),
+                2 => proptest::collection::vec(inner.clone(), 0..4).prop_map(V::Arr),
+            ]
+            .boxed()
+        }
+    })
+    .boxed()
+}
+
+pub fn amf_values(cfg: AmfCfg, max: usize) -> BoxedStrategy<Vec<V>> {
+    proptest::collection::vec(amf_value(cfg), 0..=max).boxed()
+}
+
+// ------------------------------------------------------------------------------------------------
+// Message sequences for the chunk codec (palette-based, see DESIGN.md §1.2)
+
+use crate::drive::{MsgSpec, Op, Seq};
+
+#[derive(Clone, Debug)]
+pub enum LenSpec {
+    Abs(u32),
+    /// mult * current chunk size + off
+    Rel(u8, i8),
+}
+
+impl LenSpec {
+    pub fn resolve(&self, chunk_size: u32, cap: u32) -> u32 {
+        match self {
+            LenSpec::Abs(n) => (*n).min(cap),
+            LenSpec::Rel(m, o) => {
+                let base = (*m as u64 * chunk_size as u64).min(cap as u64) as i64;
+                (base + *o as i64).clamp(0, cap as i64) as u32
+            }
+        }
+    }
+}
+
+pub fn len_spec() -> BoxedStrategy<LenSpec> {
+    prop_oneof![
+        1 => Just(LenSpec::Abs(0)),
+        3 => (1u32..10).prop_map(LenSpec::Abs),
+        3 => (1u32..300).prop_map(LenSpec::Abs),
+        3 => (0u8..4, -1i8..2).prop_map(|(m, o)| LenSpec::Rel(m, o)),
+        2 => (300u32..2000).prop_map(LenSpec::Abs),
+    ]
+    .boxed()
+}
+
+pub fn type_id() -> BoxedStrategy<u8> {
+    prop_oneof![
+        12 => pick(&[8u8, 9, 18, 20, 4]),
+        4 => pick(&[2u8, 3, 5, 6, 15, 17, 19, 0, 255, 22]),
+        1 => any::<u8>(),
+    ]
+    // a raw type-1 message would be taken for a chunk-size change by the receiver although the
+    // serializer did not change its size: outside the property's domain
+    .prop_map(|t| if t == 1 { 2 } else { t })
+    .boxed()
+}
+
+pub fn msid() -> BoxedStrategy<u32> {
+    prop_oneof![
+        6 => pick(&[0u32, 1, 2, 256, 0x0102_0304, 0xFFFF_FFFF, 0x8000_0000]),
+        1 => any::<u32>(),
+    ]
+    .boxed()
+}
+
+pub fn chunk_size() -> BoxedStrategy<u32> {
+    prop_oneof![
+        4 => pick(&[1u32, 2, 3, 127, 128, 129, 4096, 65536, 0x7FFF_FFFF, 0x7FFF_FFFE]),
+        4 => 1u32..300,
+        1 => 1u32..0x8000_0000,
+    ]
+    .boxed()
+}
+
+#[derive(Clone, Copy, Debug)]
+pub struct SeqCfg {
+    pub max_ops: usize,
+    pub drop_pct: u8,
+    pub force_pct: u8,
+    pub chunk_change_pct: u8,
+    pub len_cap: u32,
+}
+
+impl SeqCfg {
+    pub const DEFAULT: SeqCfg = SeqCfg { max_ops: 12, drop_pct: 15, force_pct: 10, chunk_change_pct: 10, len_cap: 6000 };
+}
+
+pub fn msg_seq(cfg: SeqCfg) -> BoxedStrategy<Seq> {
+    let palette = (
+        proptest::collection::vec(type_id(), 1..=2),
+        proptest::collection::vec(msid(), 1..=2),
+        proptest::collection::vec(delta_u32(), 1..=2),
+        proptest::collection::vec(len_spec(), 1..=2),
+    );
+    let draft = (
+        (0u8..100, 0u8..100, 0u8..100, 0u8..100, 0u8..100),
+        (any::<u16>(), any::<u16>(), any::<u16>(), any::<u16>()),
+        (type_id(), msid(), delta_u32(), len_spec()),
+        (any::<u32>(), 0u8..100, 0u8..100, chunk_size()),
+    );
+    (palette, proptest::collection::vec(draft, 1..=cfg.max_ops))
+        .prop_map(move |((pt, pm, pd, pl), drafts)| {
+            let mut ops = Vec::new();
+            let mut cs = 128u32;
+            let ix = |i: u16, n: usize| ((i as usize) * n) >> 16;
+            for ((kind, st, sm, sd, sl), (it, im, id, il), (ot, om, od, ol), (fill, f, d, new_cs)) in drafts {
+                if kind < cfg.chunk_change_pct {
+                    ops.push(Op::Chunk(new_cs));
+                    cs = new_cs;
+                    continue;
+                }
+                let type_id = if st < 85 { pt[ix(it, pt.len())] } else { ot };
+                let msid = if sm < 85 { pm[ix(im, pm.len())] } else { om };
+                let dts = if sd < 85 { pd[ix(id, pd.len())] } else { od };
+                let len = if sl < 85 { pl[ix(il, pl.len())].clone() } else { ol };
+                ops.push(Op::Msg(MsgSpec {
+                    type_id,
+                    msid,
+                    dts,
+                    len: len.resolve(cs, cfg.len_cap),
+                    fill,
+                    force: f < cfg.force_pct,
+                    drop: d < cfg.drop_pct,
+                }));
+            }
+            Seq { ops }
+        })
+        .boxed()
+}
